@@ -113,3 +113,33 @@ Section BRU.
       = map of_nres evs ++ [RecvAborted].
   Proof. intros o ts HG. exact (timeout_loses_nothing_rel M mode _ _ _ _ OK c0 R0 o ts HG). Qed.
 End BRU.
+
+(* ---- two threads on one blocking client: closed instances for the copying receiver *)
+From EN Require Import Conc.RecvLock Proofs.C03_lock Proofs.C03_fixed.
+
+Lemma ru_threads_recv_sequence :
+  forall (P : Type) (sep : bytes) (limit : nat) (keep_end : bool) (dec : decoder P) (bufsize : nat),
+    sep <> [] -> 0 < bufsize ->
+  forall (o : oracle) (na nb : nat) (sch : list bool) (j : nat) (r : rres P),
+    safe sep limit (stream_of o) ->
+    nth_error (delivered (map snd (rev (t_log (trun (copy_machine (ru_framer sep limit keep_end dec) bufsize)
+                                               (tinit (cinit (ru_framer sep limit keep_end dec)) o na nb) sch))))) j = Some r ->
+    r = expected (fst (spec_events sep keep_end dec (stream_of o))) j.
+Proof.
+  intros P sep limit keep_end dec bufsize Hs Hb o na nb sch j r HG H.
+  exact (threads_recv_sequence_rel _ (copy_machine_progress _ bufsize Hb) _ _ _ _
+           (ru_consumer_ok_rel sep limit keep_end dec bufsize Hs Hb) _ (ru_R_init sep limit keep_end dec Hs)
+           o na nb sch j r HG H).
+Qed.
+
+Lemma fx_threads_recv_sequence :
+  forall (P : Type) (size : nat) (dec : decoder P) (bufsize : nat), 0 < size -> 0 < bufsize ->
+  forall (o : oracle) (na nb : nat) (sch : list bool) (j : nat) (r : rres P),
+    nth_error (delivered (map snd (rev (t_log (trun (copy_machine (rx_framer size dec) bufsize)
+                                               (tinit (cinit (rx_framer size dec)) o na nb) sch))))) j = Some r ->
+    r = expected (fx_spec size dec (stream_of o)) j.
+Proof.
+  intros P size dec bufsize Hs Hb o na nb sch j r H.
+  exact (threads_recv_sequence _ (copy_machine_progress _ bufsize Hb) _ _
+           (fx_consumer_ok size dec bufsize Hs Hb) _ (fx_R_init size dec bufsize Hs Hb) o na nb sch j r H).
+Qed.
